@@ -25,7 +25,8 @@ CHECKS = {
             "emitted word and every motion target against the bounds in force (exact order via q-records, so min-ulp / "
             "max+ulp / NaN are decided exactly).", "5 C03", BUILDER_NOTE),
     "C05": ("Every rejection branch of BuilderImpl from every reachable state (C05_NoEmit/C05_NoEffect as action "
-            "properties); on real executions the full public snapshot before and after every rejected call is compared by TLC.",
+            "properties); on real executions the full public snapshot before and after every rejected call is compared by TLC, "
+            "and every history with refused calls is run again without them and compared call by call (C05_AsIfNever).",
             "5 C05", BUILDER_NOTE),
     "C06": ("C06_Off as an action property over the complete interlock model (all bounds configurations incl. ranges "
             "excluding zero) and on every off-call of recorded real executions; InterlockInd (Apalache, unbounded values).",
